@@ -2,6 +2,7 @@
 
 Only the part of C16 that is visible in the shape of `get_route` and its helpers is decided here (see EXPLANATION)."""
 from engine import *
+import ordimpls
 import provenance
 import re as _re
 
@@ -766,4 +767,5 @@ RULES = [
 	('16.z', 'named protocol / policy constants in this property\'s files have their reviewed values (rules/provenance.py)', lambda F: provenance.consts_for_property(F, 'C16', '16.z')),
 	('16.v', 'field-versus-field comparisons (a received value against a limit, an id against an id) are the reviewed ones: same fields, same operator (rules/provenance.py)', lambda F: provenance.cmps_for_property(F, 'C16', '16.v')),
 	('16.s', 'no reviewed function gained a short-circuiting iterator adaptor (find / find_map / take / position ...: an every-element walk that stops at the first match; rules/provenance.py)', lambda F: provenance.sc_for_property(F, 'C16', '16.s')),
+	('16.o', 'hand-written eq / cmp / partial_cmp / hash impls in this property\'s files: same field on both sides, reviewed direction, no reviewed key lost, hash within eq (rules/ordimpls.py)', lambda F: ordimpls.for_property(F, 'C16', '16.o')),
 ]
